@@ -48,6 +48,12 @@ def _line_counter_problem(f, dividend, loops):
     return "it is derived from %s" % (calls[0] if calls else "a value that is not advanced once per line")
 
 
+def _is_error_exit(f, exit_bb, region):
+    """the exit is reached (within region) only after an Err / None was constructed for the return value"""
+    return any(st["k"] == "assign" and st["rv"]["k"] == "aggr" and st["rv"].get("variant") in ("Err",) and exit_bb in f.reachable_from(i)
+               for i, st in f.stmts() if i in region)
+
+
 def _only_called_from(P, g, allowed, depth=2):
     """every (transitive, bounded) caller of g is one of the allowed functions"""
     callers = set()
@@ -65,7 +71,7 @@ def _only_called_from(P, g, allowed, depth=2):
         o = P.fns[k]
         if o.spath in allowed:
             continue
-        if depth > 0 and not o.loops() and _only_called_from(P, o, allowed, depth - 1):
+        if depth > 0 and (not o.loops() or o.spath not in PR.pinned_fns()) and _only_called_from(P, o, allowed, depth - 1):
             continue
         return False
     return True
@@ -110,7 +116,9 @@ def run(R):
                                  "%s of a line is not dominated by the running==true edge: an interrupted query still executes/prints it"
                                  % short(c.name).split("::")[-1]))
         # false edge: no input-consuming call reachable
-        after = f.reachable_from(f_t)
+        after = PR.flag_reach(f, f_t)
+        if after is None:
+            after = f.reachable_from(f_t)
         cons = [c for c in L.consuming_calls(f) if c.bb in after]
         if cons:
             problems.append(("continues-reading", "after an interrupt control can still reach %s (further input is consumed)"
@@ -127,7 +135,12 @@ def run(R):
                         ["%s:%d" % (f.file, errs[0]["line"])])
         elif name == L.FILE_EXEC:
             agg = PR.calls_matching(f, r"ExecutionEngine::is_aggregate$")
-            good = bool(agg) and PR.all_paths_hit(f, f_t, [c.bb for c in agg])[0]
+            miss = PR.flag_reach(f, f_t, avoid=set(c.bb for c in agg)) if agg else None
+            if miss is None:
+                good = bool(agg) and PR.all_paths_hit(f, f_t, [c.bb for c in agg])[0]
+            else:
+                # exits reached without passing the aggregate test; error exits (a `?` that fails) do not count
+                good = bool(agg) and not any(b in miss and not _is_error_exit(f, b, miss) for b in f.exits())
             pr = [c for c in PR.calls_matching(f, L.PRINT) if c.bb not in lp.body]
             if good and pr:
                 R.ok("C19.quiet", sn, "interrupt path reaches the final aggregate result + print, no error constructed", ld.loc())
@@ -194,7 +207,7 @@ def run(R):
                 R.ok("C19.flag", "reader|" + owner.spath.split("::")[-2] + "::" + owner.spath.split("::")[-1], "input loop", c.loc(), nontrivial=False)
             elif owner.spath.startswith("sqlgrep::table_editor") or owner.spath.startswith("sqlgrep::python_wrapper"):
                 continue
-            elif _only_called_from(P, owner, allowed_readers) and not owner.loops():
+            elif _only_called_from(P, owner, allowed_readers) and (not owner.loops() or owner.spath not in PR.pinned_fns()):
                 # a predicate helper of an input loop (`is_running()`): C19.sample analyses it inlined into its loop
                 R.ok("C19.flag", "reader|" + owner.spath.split("::")[-2] + "::" + owner.spath.split("::")[-1],
                      "helper called only from the input loops", c.loc(), nontrivial=False)
